@@ -42,6 +42,10 @@ class C18(Suite):
     case_ty = "case"
     obs_ty = "list qset"
     corr = "AuditableStore.add/remove/commit/rollback"
+    # counts (evidence: trigger_hits) the histories that leave the scope of the two-wrapper statement; number 9 is
+    # mapped to no finding, so nothing is waived for them
+    kf = "scope_kf"
+    kf_ids = {9: "out-of-scope (statistic only)"}
     quick_n = 700
     thorough_n = 30000
 
@@ -247,6 +251,7 @@ class C18Batch(C18):
     model = "bmodel_obs"
     oeq = "list_eqb qseteqb"
     spec = "bspec_ok"
+    kf = "bscope_kf"
     corr = "AuditableStore via Store.addN (Graph.addN / ConjunctiveGraph.addN)"
     quick_n = 400
     thorough_n = 12000
@@ -315,6 +320,7 @@ class C18Memory(C18):
     model = "mm_obs"
     oeq = "obs_eqb"
     spec = "mspec_ok"
+    kf = "mscope_kf"
     corr = "AuditableStore.add/remove/commit/rollback over rdflib.plugins.stores.memory.Memory (add, remove, triples)"
     quick_n = 400
     thorough_n = 12000
